@@ -991,11 +991,109 @@ fn dhcp_app(rig: &mut Rig, h: SocketHandle) {
                 a.retain(|c| !matches!(c, IpCidr::Ipv4(_)));
                 let _ = a.push(IpCidr::Ipv4(cidr));
             });
-            if let Some(r) = router {
-                let _ = rig.iface.routes_mut().add_default_ipv4_route(r);
+            // examples/dhcp_client.rs: set the default route, or remove it when the lease has none
+            match router {
+                Some(r) => {
+                    let _ = rig.iface.routes_mut().add_default_ipv4_route(r);
+                }
+                None => {
+                    rig.iface.routes_mut().remove_default_ipv4_route();
+                }
             }
         }
     }
+}
+
+/// message type and ciaddr of the last DHCP client message emitted after `mark`
+fn dhcp_last(rig: &Rig, mark: usize) -> Option<(u8, [u8; 4], u32)> {
+    let v = rig.log[mark..].iter().rev().filter_map(|r| tx_l4(rig.medium(), &r.frame)).find(|v| v.proto == 17 && v.sport == 68 && v.dport == 67 && v.body.len() >= 240)?;
+    let b = &v.body;
+    let mut o = 240;
+    let mut ty = 0;
+    while o + 2 <= b.len() && b[o] != 255 {
+        if b[o] == 0 {
+            o += 1;
+            continue;
+        }
+        if b[o] == 53 && b[o + 1] == 1 && o + 2 < b.len() {
+            ty = b[o + 2];
+        }
+        o += 2 + b[o + 1] as usize;
+    }
+    Some((ty, [b[12], b[13], b[14], b[15]], u32::from_be_bytes([b[4], b[5], b[6], b[7]])))
+}
+
+/// The lease changes under the client: the server answers the FIRST renewal with an ACK for a
+/// different address / mask / router. The application applies the socket's events to the
+/// interface exactly like examples/dhcp_client.rs; every frame of the following renewals, the
+/// rebinding and the new discovery must come from an address the interface owns at that moment
+/// (or 0.0.0.0 where DHCP wants it).
+fn sc_dhcp_renew_changes(rig: &mut Rig, _v6: bool, variant: usize) {
+    let a_addr = [192, 168, 69, 50];
+    // (yiaddr, mask, router) of the renewal ACK
+    let (b_addr, b_mask, b_router): ([u8; 4], [u8; 4], Option<[u8; 4]>) = match variant {
+        0 => ([192, 168, 69, 77], [255, 255, 255, 0], Some(GW4)),
+        1 => (a_addr, [255, 255, 0, 0], Some([192, 168, 69, 253])),
+        2 => ([10, 0, 5, 9], [255, 255, 255, 0], Some([10, 0, 5, 1])),
+        3 => ([192, 168, 69, 78], [255, 255, 255, 128], None),
+        _ => ([192, 168, 70, 1], [255, 255, 254, 0], Some(GW4)),
+    };
+    let h = rig.sockets.add(dhcpv4::Socket::new());
+    rig.settle();
+    dhcp_app(rig, h);
+    let Some(xid) = dhcp_xid(rig, 0) else { return };
+    let mark = rig.log.len();
+    rig.inject(dhcp_frame(2, xid, &a_addr, DhcpExtra::default()));
+    dhcp_app(rig, h);
+    let Some(xid) = dhcp_xid(rig, mark) else { return };
+    rig.inject(dhcp_frame(5, xid, &a_addr, DhcpExtra { lease: Some(60), ..Default::default() }));
+    dhcp_app(rig, h);
+    rig.settle();
+    let ack = |xid: u32, renewed: bool| -> Vec<u8> {
+        let mut f = if renewed {
+            dhcp_frame(5, xid, &b_addr, DhcpExtra { lease: Some(60), mask: Some(b_mask), router: b_router, dns: true, timers: false })
+        } else {
+            dhcp_frame(5, xid, &a_addr, DhcpExtra { lease: Some(60), ..Default::default() })
+        };
+        f[0..6].copy_from_slice(&IFACE_MAC);
+        f
+    };
+    let mut renewals = 0;
+    for _ in 0..12 {
+        // the server (and the new router) stay known to the neighbor cache: they speak first
+        let own: Option<[u8; 4]> = rig.iface.ipv4_addr().map(|a| a.octets());
+        if let Some(me4) = own {
+            rig.inject(eth(&[0xff; 6], &DHCP_SERVER_MAC, 0x0806, &arp(1, &DHCP_SERVER_MAC, &GW4, &[0; 6], &me4)));
+            if let Some(r) = b_router {
+                if r != GW4 {
+                    rig.inject(eth(&[0xff; 6], &GW_MAC, 0x0806, &arp(1, &GW_MAC, &r, &[0; 6], &me4)));
+                }
+            }
+        }
+        let step = rig.log.len();
+        if !rig.advance_to_deadline(600_000_000) {
+            break;
+        }
+        dhcp_app(rig, h);
+        if let Some((ty, ciaddr, xid)) = dhcp_last(rig, step) {
+            if ty == 3 && ciaddr != [0; 4] {
+                renewals += 1;
+                rig.note(|| format!("dhcp: renewal/rebind REQUEST #{} with ciaddr {:?}", renewals, ciaddr));
+                // first renewal: the lease changes; second: confirmed as it is now; afterwards
+                // the server is silent (renewal retries, rebinding, expiry, new discovery)
+                if renewals <= 2 {
+                    rig.inject(ack(xid, true));
+                    dhcp_app(rig, h);
+                    rig.settle();
+                    dhcp_app(rig, h);
+                }
+            }
+        }
+    }
+    // ordinary traffic with whatever configuration is in place at the end
+    let u = udp_socket(rig, 7000, None);
+    let _ = rig.sockets.get_mut::<udp::Socket>(u).send_slice(&pat(12, 19), IpEndpoint::new(ipa(&GW4), 9000));
+    rig.settle();
 }
 fn dhcp_xid(rig: &Rig, mark: usize) -> Option<u32> {
     rig.log[mark..].iter().rev().filter_map(|r| tx_l4(rig.medium(), &r.frame)).find(|v| v.proto == 17 && v.sport == 68 && v.dport == 67 && v.body.len() >= 8).map(|v| u32::from_be_bytes(v.body[4..8].try_into().unwrap()))
@@ -1208,6 +1306,7 @@ pub fn scenarios() -> Vec<Scenario> {
         Scenario { name: "mld", variants: 2, setup: v6_only, run: sc_mld },
         Scenario { name: "igmp", variants: 2, setup: igmp_setup, run: sc_igmp },
         Scenario { name: "dhcp-client", variants: 3, setup: dhcp_setup, run: sc_dhcp },
+        Scenario { name: "dhcp-renewal-changes-lease", variants: 5, setup: dhcp_setup, run: sc_dhcp_renew_changes },
         Scenario { name: "dns-queries", variants: 3, setup: std_setup, run: sc_dns },
         Scenario { name: "raw-socket", variants: 2, setup: std_setup, run: sc_raw },
         Scenario { name: "no-ipv6-address", variants: 2, setup: no_v6_setup, run: sc_no_v6_addr },
